@@ -400,6 +400,15 @@ def load_table():
 DERIV = {'DERIVES', 'CONNECTS'}
 
 
+def _direction(iterator):
+    it = iterator.split('.')[-1]
+    if 'in_' in it or it in ('predecessors', 'in_edges', 'in_degree'):
+        return 'in'
+    if 'out_' in it or it in ('successors', 'out_edges', 'out_degree'):
+        return 'out'
+    return 'all'
+
+
 def check_walks(ctx, categories=None, anchors=(), rule='A4'):
     """Compare every walk site with the reference table (restricted to `categories` when given)."""
     prog = ctx.prog
@@ -442,7 +451,24 @@ def check_walks(ctx, categories=None, anchors=(), rule='A4'):
     for k in missing:
         fkey_ = k.split('|')[0]
         if fkey_ in anchors or (prog.func_opt(fkey_) is not None and rows[k].get('anchor')):
-            raise AnalysisError(f'anchored walk site vanished: {k}')
+            if categories is not None and rows[k]['category'] not in categories:
+                continue
+            fn_ = prog.func_opt(fkey_)
+            if fn_ is None:
+                raise AnalysisError(f'anchored walk site vanished together with its function: {k}')
+            # the function is still there but no longer contains the triaged walk: what it walks now does not do
+            # the same job unless some walk in it has the same direction and accepts the same edge types
+            want_dir = _direction(k.split('|')[1])
+            same = [s for s in sites if s.fn is fn_ and _direction(s.iterator) == want_dir and
+                    s.signature() == list(rows[k]['signature']) and s.key not in rows]
+            n += 1
+            now = '; '.join(f'{s.iterator}({s.node_arg}) accepts {s.signature()}' for s in sites if s.fn is fn_)
+            ctx.ob(rule, k, bool(same), fn_.where,
+                   f'{fn_.qualname} contains the triaged walk [{rows[k]["category"]}]: {want_dir}-edges accepting '
+                   f'exactly {list(rows[k]["signature"])} ({rows[k].get("reason", "")})',
+                   f'equivalent walk found: {same[0].key}' if same else
+                   f'that walk is gone; the function now walks: {now or "nothing"}')
+            continue
         ctx.note(f'table row without a matching site (moved or removed code): {k}')
     for a in anchors:
         prog.func(a)
